@@ -211,7 +211,13 @@ RowBad(c, row) ==
   {<<"ans", kk[1] \o Suffix[kk[2]]>> : kk \in {kk \in AllKeys(StrMethods) :
       /\ (kk[1] \o Suffix[kk[2]]) \in DOMAIN row.a
       /\ \/ ~ListOK(kk[1], row.a[kk[1] \o Suffix[kk[2]]])
-         \/ Dec(kk[1], row.a[kk[1] \o Suffix[kk[2]]]) # Ans(c, kk[1], Modes[kk[2]], S(row.x))}}
+         \/ Dec(kk[1], row.a[kk[1] \o Suffix[kk[2]]]) # Ans(c, kk[1], Modes[kk[2]], S(row.x))}} \cup
+  \* passthrough hands back x UNCHANGED where the default gives None: asked with the same text as an instance of a str
+  \* subclass, the object itself must come back (logged as  <method>@p#same)
+  {<<"ans", mm \o "@p">> : mm \in {mm \in StrMethods :
+      /\ (mm \o "@p#same") \in DOMAIN row.a
+      /\ row.a[mm \o "@p#same"] = <<"val", FALSE>>
+      /\ Ans(c, mm, Modes[1], S(row.x)) = None1}}
 PRowBad(c, row) ==
   {<<"ans", kk[1] \o Suffix[kk[2]]>> : kk \in {kk \in AllKeys(PairMethods) :
       /\ (kk[1] \o Suffix[kk[2]]) \in DOMAIN row.a
